@@ -516,6 +516,16 @@ class Check:
             self.broken.append("audit: unexpected axioms " + json.dumps(bad))
             return False
         self.discharged = self.obligations
+        if self.tier == "thorough":
+            # independent re-check of the compiled theorems and everything they depend on
+            rc, out, dt = sh(["coqchk", "-o", "-silent", "-Q", "theories", "Mimium", f"Mimium.Props.{pid}"], cwd=COQ, timeout=1800)
+            m = re.search(r"\* Axioms:(.*?)\n\s*\n", out + "\n\n", re.S)
+            axioms = [a.strip() for a in (m.group(1) if m else "?").split("\n") if a.strip()]
+            self.coverage["coqchk"] = {"rc": rc, "wall_s": round(dt, 1), "axioms": axioms}
+            bad = [a for a in axioms if a != "<none>" and not any(a.startswith(x) for x in allow_axioms)]
+            if rc != 0 or bad:
+                self.broken.append("coqchk: rc=%s axioms=%s" % (rc, bad))
+                return False
         return len(self.broken) == 0
 
     # -- finish -----------------------------------------------------------
